@@ -25,7 +25,7 @@ func init() { core.Register(prop{}) }
 func (prop) ID() string    { return "C17" }
 func (prop) Level() string { return "exploration" }
 func (prop) Rule() string {
-	return "decoder: every operation sequence up to the tier's length over {Byte,Int16,Int32,Uint32,PeekByte,PeekInt16,Data,Copy(n),Seek(n), n=-3..8} on every buffer (lengths 0..6 x 8 contents from boundary bytes), each under its own recover, compared step by step with a cursor model (return value, Available, error flag); longer sequences/buffers seeded. IPP: generated requests (5 operations, 1..3 groups, 0..6 attributes over every supported value tag, 1..3 values, strings 0..300, document 0..64 KiB) posted through the real dispatcher; reply and event compared with an independent encoder. Non-trivial = a sequence in which >=1 operation consumed or returned data / an IPP request that was answered; distinct by (buffer, sequence) / request bytes. IPP requests are also delivered in two segments with another client's complete print job served in between (ipp-overlapped)."
+	return "decoder: every operation sequence up to the tier's length over {Byte,Int16,Int32,Uint32,PeekByte,PeekInt16,Data,Copy(n),Seek(n), n=-3..8} on every buffer (lengths 0..6 x 8 contents from boundary bytes), each under its own recover, compared step by step with a cursor model (return value, Available, error flag); longer sequences/buffers seeded. IPP: generated requests (5 operations, 1..3 groups, 0..6 attributes over every supported value tag, 1..3 values, strings 0..300, document 0..64 KiB) posted through the real dispatcher; reply and event compared with an independent encoder. Non-trivial = a sequence in which >=1 operation consumed or returned data / an IPP request that was answered; distinct by (buffer, sequence) / request bytes. IPP requests are also delivered in two segments with another client's complete print job served in between (ipp-overlapped). Every second request of ipp-overlapped is sent by a slow receiver (48-byte window) and another client's exchange is served while its reply is on the way."
 }
 func (prop) Assumptions() []string {
 	return []string{"negative sizes count as 'does not fit'", "Seek with a negative argument inside the buffer is the legitimate rewind the IPP code relies on", "out-of-bounds access is detected by Go's bounds checks on a buffer whose capacity equals its length"}
